@@ -71,6 +71,8 @@ func NewServerWithInterceptor(env *univ.Env) *Server {
 			return nil, &univ.UserError{Msg: univ.ErrText(pr.K)}
 		case univ.FaultPanic:
 			panic(univ.PanicText(pr.K))
+		case univ.FaultErrList:
+			return nil, univ.ErrList(pr.K)
 		}
 		return res, err
 	})
